@@ -451,7 +451,7 @@ def run_case_files(header, case_type, check_fn, cases, shard=400, workdir=None, 
         out, err = p.communicate(timeout=timeout)
         if p.returncode != 0:
             raise RuntimeError(f"coqc failed on {fn}:\n{out[-2000:]}\n{err[-2000:]}")
-        m = re.search(r"=\s*(.*?)\s*:\s*list N", out, re.S)
+        m = re.search(r"=\s*(.*?)\s*:\s*list (?:BinNums\.)?N", out, re.S)
         if not m:
             raise RuntimeError(f"cannot parse coqc output for {fn}: {out[-500:]}")
         for tok in re.findall(r"\d+", m.group(1)):
